@@ -110,7 +110,7 @@ def src_events(events):
     """events: list of ('c', bytes) | 'i' | 'f'"""
     toks = []
     for e in events:
-        if e == "i" or e == "f":
+        if isinstance(e, str):
             toks.append(e)
         elif e[1]:
             toks.append("c" + e[1].hex())
@@ -385,3 +385,6 @@ def names_sizes(chains_d, side):
     for c in chains_d:
         out.setdefault(c[side][0], set()).add(c[side][1])
     return out
+
+
+FAULT_KINDS = ["f", "fu", "fw", "ft", "fb", "fr", "fp"]
